@@ -329,9 +329,17 @@ where
         })
     }
 
+    /// Upper limit for the number of frames the next call can produce.
+    /// The read position moves from `last_index` to the end index used by `process_into_buffer`
+    /// in steps that are never smaller than the smallest of the current and the target step.
     fn calc_needed_len(&self) -> usize {
-        (self.chunk_size as f64 * (0.5 * self.resample_ratio + 0.5 * self.target_ratio) + 10.0)
-            as usize
+        let t_ratio = 1.0 / self.resample_ratio;
+        let t_ratio_end = 1.0 / self.target_ratio;
+        let end_idx = self.chunk_size as isize
+            - (self.interpolator.len() as isize + 1)
+            - t_ratio.max(t_ratio_end).ceil() as isize;
+        let distance = (end_idx as f64 - self.last_index).max(0.0);
+        (distance / t_ratio.min(t_ratio_end)) as usize + 2
     }
 }
 
@@ -517,9 +525,11 @@ where
     }
 
     fn output_frames_max(&self) -> usize {
-        // Set length to chunksize*ratio plus a safety margin of 10 elements.
-        (self.max_chunk_size as f64 * self.resample_ratio_original * self.max_relative_ratio + 10.0)
-            as usize
+        // The longest distance to cover, a full chunk plus what a chunk at the lowest ratio
+        // can leave unprocessed, in the smallest steps.
+        let max_distance = self.max_chunk_size as f64
+            + (self.max_relative_ratio / self.resample_ratio_original).ceil();
+        (max_distance * self.resample_ratio_original * self.max_relative_ratio) as usize + 3
     }
 
     fn output_frames_next(&self) -> usize {
